@@ -70,6 +70,30 @@ CLAIMED = {
             "End-of-input exits of loops are read, not derived; Rust-stack exhaustion by nesting beyond the property's "
             "bound is not decided; justified sites rest on who-writes invariants that are themselves rule instances; " + TRUST,
             "DESIGN.md §3 C01"),
+    "C15": ("codec bit-provenance (abstract interpretation of decoders/encoders over per-bit origins) + who-may-write and "
+            "routing rules",
+            "Decides structurally, for every frame, that serialising a parsed-but-unmodified layer reproduces the captured "
+            "bytes: every output bit of every header serialiser is the field bit decoded from the same input position "
+            "(976 bits over 7 layers and 3 address types), lengths agree at the header/payload seam, cached inner objects "
+            "are byte-complete, getters write nothing, and pcap_write / write / filter output share one serialiser.",
+            "The domain is exact only for straight-line bit selections (anything else is '?' and fails closed); rawdata is "
+            "assumed to be the captured buffer (C19); " + TRUST,
+            "DESIGN.md §2.4, §3 C15"),
+    "C16": ("bit-provenance of the getter chain compared with a frozen RFC/IEEE/pcap layout table + exhaustive dispatch "
+            "and name-table agreement",
+            "Decides completely, for the fixed-position fields, that each readable property returns exactly the reference "
+            "bit range (53 properties), that $n / named layer properties dispatch on the EtherType, protocol and "
+            "next-header constants of the reference table with selector guards, that payloads start at the recorded "
+            "offset, and that truncated layers are rejected by a length prologue covering every byte read.",
+            "tables/rfc_layouts.json is a transcription (each layer cites its source); address text forms are not decided; " + TRUST,
+            "DESIGN.md §3 C16"),
+    "C17": ("per-property chain check: set/get sibling pair, single-field store, width discipline against the wire width, "
+            "guard-before-store, encode/decode positions of the field",
+            "Decides for each of the 50 writable properties that assignment stores into exactly the field the getter reads, "
+            "that the value is range-checked or reduced to exactly the field's wire width, that a rejected value precedes "
+            "any store, and that the field is encoded at and decoded from the reference bit range.",
+            "Coupling between fields (ihl / data offset vs cached payload offset) is not modelled; " + TRUST,
+            "DESIGN.md §3 C17"),
 }
 
 NOT_APPLICABLE = {
